@@ -311,7 +311,7 @@ pub fn property() -> Property {
     let _ = ALGS;
     Property {
         id: "C11",
-        rule: "Texts built from 1-5 files (names as in C10): for each file its checksum lines in order (algorithm in canonical or random-case spelling, hash token) and at most one size line at a random place ('Size (n) = N bytes', sometimes without 'bytes'), 1-3 blanks/tabs between fields, sometimes leading blanks; the files' runs are interleaved; an optional RCS line; 0-9 noise lines inserted anywhere: comments, blank lines, unknown algorithms (SHA3, CRC32, Sizes, MD55, size), bad sizes (empty, abc, -1, 1.5, 12kb, 2^64), garbage, '$NetBSD$', invalid UTF-8 keyword, truncations of well-formed lines (SHA1 | SHA1 (f) | SHA1 (f) = | Size (f) = | Size (f) | Size), missing parentheses. Oracle: M-distinfo applied line by line - distfiles() and patchfiles() list exactly the model's files in first-appearance order with checksums in line order and the size, get_distfile/get_patchfile find each under exactly its name and not in the other map, EntryType::from = the naming rule; the RCS Id is the last '$NetBSD: ' line. Second stream: the classification rule alone on generated names. Non-trivial = >= 2 files, interleaved, and a noise line between two lines of the same file. Distinct = distinct texts.",
+        rule: "Texts built from 1-5 files (names as in C10): for each file its checksum lines in order (algorithm in canonical or random-case spelling, hash token) and at most one size line at a random place ('Size (n) = N bytes', sometimes without 'bytes'), 1-3 blanks/tabs between fields, sometimes leading blanks; the files' runs are interleaved; an optional RCS line; 0-9 noise lines inserted anywhere: comments, blank lines, unknown algorithms (SHA3, CRC32, Sizes, MD55, size), bad sizes (empty, abc, -1, 1.5, 12kb, 2^64), garbage, '$NetBSD$', invalid UTF-8 keyword, truncations of well-formed lines (SHA1 | SHA1 (f) | SHA1 (f) = | Size (f) = | Size (f) | Size), missing parentheses. Oracle: M-distinfo applied line by line - distfiles() and patchfiles() list exactly the model's files in first-appearance order with checksums in line order and the size, get_distfile/get_patchfile find each under exactly its name and not in the other map, EntryType::from = the naming rule; the RCS Id is the last '$NetBSD: ' line. Second stream: the classification rule alone on generated names. Non-trivial = >= 2 files, interleaved, and a noise line between two lines of the same file. Distinct = distinct texts. Generators also draw, at low weight, tokens from the source-literal dictionary (every string / byte / character literal of the library's own source, collected at build time and filtered by this domain's character class) (as name components); names with a leading './', doubled / trailing '/' and interior '.' components are inside the domain.",
         assumptions: vec![
             "lines with the right keyword, a parenthesised name and a value but something other than '=' in between are outside the domain (a liberal parser may accept them)",
             "at most one size line per file; blanks between fields are spaces and tabs; no VT (0x0B) anywhere",
